@@ -47,7 +47,7 @@ var atoms = []ref.RuleAtom{
 	{Name: "min"}, {Name: "min", Variant: "eq"}, {Name: "max"}, {Name: "max", Variant: "eq"}, {Name: "max", Variant: "disordered"},
 	{Name: "exclusiveMinimum", Variant: "true"}, {Name: "exclusiveMinimum", Variant: "false"},
 	{Name: "exclusiveMaximum", Variant: "true"}, {Name: "exclusiveMaximum", Variant: "false"},
-	{Name: "precision"}, {Name: "minLength"}, {Name: "maxLength"}, {Name: "maxLength", Variant: "disordered"}, {Name: "regex"},
+	{Name: "precision"}, {Name: "minLength"}, {Name: "maxLength"}, {Name: "maxLength", Variant: "disordered"}, {Name: "regex"}, {Name: "regex", Variant: "escaped"},
 	{Name: "minItems"}, {Name: "maxItems"}, {Name: "maxItems", Variant: "disordered"},
 	{Name: "additionalProperties"}, {Name: "allOf"}, {Name: "allOf", Variant: "empty-parent"}, {Name: "enum"}, {Name: "or"}, {Name: "or", Variant: "disordered-set"}, {Name: "or", Variant: "ordered-set"}, {Name: "or", Variant: "format-with-length-set"},
 	{Name: "type", Variant: "kind"}, {Name: "type", Variant: "any"}, {Name: "type", Variant: "ref"}, {Name: "type", Variant: "decimal"}, {Name: "type", Variant: "date"},
@@ -144,6 +144,9 @@ func build(c Case) (*ref.SNode, []ref.RuleAtom, bool) {
 			}
 		case "regex":
 			r.Tok = `"^[a2]"`
+			if a.Variant == "escaped" {
+				r.Tok = `"^[\u00612]"` // the same pattern, one character written as an escape
+			}
 		case "minItems":
 			r.Tok = "1"
 		case "maxItems":
